@@ -81,6 +81,15 @@ typedef struct {
                     explored in full whatever the abstraction below thinks of the state after fe_start */
 } obj_t;
 
+/* a case is a history under one option set: the option set is part of its name, and a replay selects it */
+static const char *
+fe_case(const char *hist)
+{
+    static char buf[16384];
+    snprintf(buf, sizeof buf, "opts=%d :: %s", OPTS, hist);
+    return buf;
+}
+
 static void *
 fresh(void *ctx)
 {
@@ -231,12 +240,12 @@ apply(void *ctx, void *v, int op, int check, const char *hist)
         k = fe_end(o->fe, &tp, 1);
         if (check) {
             if (o->emitted + k != REF[N].n) {
-                mc_viol("C06/frame-count-depends-on-chunking", hist,
+                mc_viol("C06/frame-count-depends-on-chunking", fe_case(hist),
                         "%d samples in total: %d frames (+%d at end), the one-call run gives %d", N, o->emitted, k, REF[N].n);
                 return -1;
             }
             if (k == 1 && !frames_equal(tail, REF[N].fr + (size_t)(REF[N].n - 1) * DIM)) {
-                mc_viol("C06/final-frame-differs", hist, "%d samples in total: the frame written by fe_end differs (c0 %g vs %g)", N,
+                mc_viol("C06/final-frame-differs", fe_case(hist), "%d samples in total: the frame written by fe_end differs (c0 %g vs %g)", N,
                         (double)tail[0], (double)REF[N].fr[(size_t)(REF[N].n - 1) * DIM]);
                 return -1;
             }
@@ -285,7 +294,7 @@ apply(void *ctx, void *v, int op, int check, const char *hist)
                     }
             if (sig) {
                 free(out);
-                mc_viol(sig, hist, "at sample %d, call %s: %s", o->consumed, opnames[op], msg);
+                mc_viol(sig, fe_case(hist), "at sample %d, call %s: %s", o->consumed, opnames[op], msg);
                 return -1;
             }
         }
@@ -496,7 +505,15 @@ main(int argc, char **argv)
             sp.opname = opname;
             sp.max_states = 2000000;
             if (cas) {
-                mc_stat("replay_bad", mc_bfs_replay(&sp, cas));
+                const char *h = cas;
+                int want = -1;
+                if (sscanf(cas, "opts=%d :: ", &want) == 1 && strstr(cas, " :: ")) {
+                    if (want != OPTS)
+                        continue; /* not this option set */
+                    h = strstr(cas, " :: ") + 4;
+                }
+                if (strncmp(h, "predict:", 8) != 0)
+                    mc_stat("replay_bad", mc_bfs_replay(&sp, h));
                 mc_finish();
                 return 0;
             }
@@ -511,7 +528,7 @@ main(int argc, char **argv)
                     char cd[64];
                     snprintf(cd, sizeof cd, "predict:N=%d", N);
                     if (pred < REF[N].n)
-                        mc_viol("C06/frame-count-prediction-too-small", cd, "%d samples: predicted %d frames, produced %d", N, pred,
+                        mc_viol("C06/frame-count-prediction-too-small", fe_case(cd), "%d samples: predicted %d frames, produced %d", N, pred,
                                 REF[N].n);
                     fe_free(fe);
                 }
